@@ -39,6 +39,7 @@ func TestProp(t *testing.T) {
 	rep := vh.NewReport("C02", "exploration")
 	rep.Rule("per generated value (SessionState / StateParameter of a shape: empty, typical, unicode, JSON-hostile, extreme times, 0-300 groups, tokens up to several KB) sealed 3x under a random 32/64-byte key: round trip at every entry point, seal freshness, no-plaintext tripwire, then a tamper corpus derived from the genuine string (every single-bit flip for the first N values, sampled + all tag/nonce bits for the rest; every proper prefix; 1-64 byte/char extensions; single-char substitutions; std alphabet, padding, CR/LF/space/tab insertion, non-canonical trailing bits, percent-encoding, case changes, foreign encodings; nonce/tag splices of two genuine values; foreign and related keys; undecodable plaintexts sealed by the key holder) presented to Decrypt, Unmarshal (pre-filled destination), UnmarshalSession and LoadSession; plus random strings of every length 0-200 and a slice of the corpus as state / CSRF cookie through the real proxy's /oauth2/callback. distinct = (tamper family, value kind, value shape, key size) and (callback position, family), counted when the string reached the entry points")
 	rep.Assume("long-run freshness: per case ONE cipher instance and a twin built from the same secret each perform N seals (Marshal and raw Encrypt) cycling over 1-4 values, half sequentially and half from 4 goroutines; all strings and all nonces (last 16 decoded bytes) must be pairwise distinct across both instances. The low-entropy check (all-zero / <= 4 distinct byte values / repeated 4-byte pattern) and the counter check (consecutive nonces differing in <= 2 bytes) are tripwires, not randomness tests")
+	rep.Assume("store round trip: SaveSession/SetCSRF on a recorder -> ALL Set-Cookie lines applied in order to a one-host jar (empty value / past expiry removes) -> every jar cookie sent back -> LoadSession/GetCSRF must give exactly the saved value, at every sealed length of the dense windows (found by varying one incompressible base62 field and measuring); ClearSession/ClearCSRF must leave no cookie with the store's name as prefix. Browsers' own per-cookie size limits are not sso's business and are not modelled. Stores are built with sessions.NewCookieStore and the option sets of proxy/options.go and auth/options.go (the authenticator does not export its store)")
 	rep.Assume("AES-SIV (miscreant) is cryptographically sound; what is observed is framing, encoding and error handling around it")
 	rep.Assume("'exactly the original value' for time.Time = the same instant to the nanosecond AND the same UTC offset; the monotonic clock reading and the *time.Location identity/name are not part of the value (encoding/json carries neither). Generated times have years 0..9999 and zone offsets of whole minutes with |offset| < 24h, the domain RFC 3339 can express")
 	rep.Assume("string fields are valid UTF-8 (encoding/json replaces invalid bytes by U+FFFD); nil and empty group lists are distinguished")
@@ -85,6 +86,17 @@ func TestProp(t *testing.T) {
 			lrWall = time.Since(t3).Seconds()
 		}()
 	}
+	// the store round-trip size sweep runs next to the value stream as well
+	var stWall float64
+	if only, skip := env.Only(streamStore); !skip {
+		cbDone.Add(1)
+		go func() {
+			defer cbDone.Done()
+			t4 := time.Now()
+			runStore(rep, env, only)
+			stWall = time.Since(t4).Seconds()
+		}()
+	}
 	if only, skip := env.Only(streamValue); !skip {
 		// phase A: per value everything except shards 1.. of the big tamper loops; phase B: those shards
 		pend := make([]*pending, nValues)
@@ -115,6 +127,7 @@ func TestProp(t *testing.T) {
 	cbDone.Wait()
 	rep.Extra("wall_callback_s", cbWall)
 	rep.Extra("wall_longrun_s", lrWall)
+	rep.Extra("wall_store_s", stWall)
 	rep.Extra("values", nValues)
 	rep.Extra("tamper_families", allFamilies)
 	rep.Extra("values_bitflip_exhaustive", exhaustiveN)
@@ -144,6 +157,9 @@ func TestProp(t *testing.T) {
 		rep.Floor("longrun_concurrent_seals", lrCases*lrSeals*2/3)
 		rep.Floor("longrun_raw_encrypts", lrCases*lrSeals)
 		rep.Floor("longrun_marshals", lrCases*lrSeals/3)
+		rep.Floor("store_sessions_cleared", env.Pick(600, 4000))
+		rep.Floor("store_csrf_read_back", env.Pick(800, 8000))
+		rep.Floor("store_targets_hit", env.Pick(450, 3500))
 		rep.Floor("callback_attempts", flows*100)
 		rep.Floor("callback_genuine_logins", flows)
 		rep.Floor("callback_state_is_reencoded_csrf_attempts", flows*3)
